@@ -103,7 +103,7 @@ pub fn for_each_grammar(slices: &[Slice], w: &mut Worker, stats: &mut Stats, mut
                 stats.inc("grammars_generated");
                 let starts: Vec<String> = if is_first { fr.start_rules().iter().map(|s| s.to_string()).collect() } else { vec!["r".to_string()] };
                 let mut starts = starts;
-                if !sl.extra_rules.is_empty() && is_first {
+                if sl.extra_rules.contains("lit =") && is_first {
                     starts.push("lit".into());
                 }
                 match prepare(&text, &format!("{}/{}", sl.name, fr.label()), inputs.clone(), starts) {
@@ -142,6 +142,14 @@ pub fn standard(quick: bool, scale: i32) -> Vec<Slice> {
         let plain: Vec<Frame> = gram::frames(false, false).into_iter().filter(|f| (f.ws <= 1 && f.sdef == 0) || (f.ws == 0 && f.ty == 0)).collect();
         v.push(Slice { name: "size4/plain-frames".into(), frames: plain, bodies: Rc::new(by[4].clone()), len: 4, len4: 3, extra_rules: "" });
     }
+    v.push(Slice {
+        name: "stack-transactions".into(),
+        frames: gram::frames(false, false).into_iter().filter(|f| f.sdef == 0 && (f.ws == 0 || (f.ws == 1 && f.ty == 0)) && (!quick || f.ty == 0 || f.ty == 2)).collect(),
+        bodies: Rc::new(gram::stack_transaction_bodies()),
+        len: if quick { 4 } else { 5 },
+        len4: if quick { 4 } else { 5 },
+        extra_rules: gram::STACK_TX_EXTRA_RULES,
+    });
     let redex: Vec<String> = gram::redex_bodies(if quick { 7 } else { gram::REDEX_TERMS.len() }).into_iter().map(|x| x.0).collect();
     v.push(Slice {
         name: "redexes".into(),
